@@ -30,6 +30,12 @@ def plan(tier, seed):
             j = ch("C13", G, hname, t, fun2, shape=dict(rows=sz), env=dict(VERIF_ROWS=sz))
             j["name"] += "[%s]" % sz
             jobs.append(j)
+    # the first pass: what is pruned by statistics never reaches the row-level pass (same harnesses as C05 / C04)
+    for h in ("h_stats_clause", "h_stats_two_clauses", "h_stats_b_without_bounds"):
+        jobs.append(ch("C13", "vf/pyshim/h_c05.py", h, t, ["api.filter_out_stats", "api.filter_val"],
+                       env=dict(VERIF_SLEN=1)))
+    jobs.append(ch("C13", "vf/pyshim/h_wc.py", "h_cat_stats_ordered", t,
+                   ["writer.write_column (statistics of an ordered categorical)"], env=dict(VERIF_CATS=1)))
     from . import pageloop
     jobs += pageloop.jobs("C13", tier, seed)
     jobs += pageloop.v2_masked_jobs("C13", tier)
